@@ -115,9 +115,9 @@ func ZZ_C09_k2_gap_sound() {
 // tiling (every region that meets a range, in order, cut at the limit) is never
 // reported as a gap.
 func ZZ_C09_k2_tiling_no_gap() {
-	klen := zzParam("k2len", 1)
+	klen := zzParam("k2tlen", 1)
 	nsp := zzChoice("nsplits", zzParam("k2splits", 3)+1)
-	nr := 1 + zzChoice("nranges", zzParam("k2ranges", 2))
+	nr := 1 + zzChoice("nranges", zzParam("k2tranges", 2))
 	sp := zzSplits(nsp, klen)
 	pd := zzLayout(sp)
 	ranges := zzSortedRanges(nr, klen)
